@@ -322,6 +322,20 @@ theorem frame_table_agrees_with_plane_positions (channels : List (Option Int)) (
   ⟨tiledFullLut_agrees_with_slidePerFrame channels planes tr tc R C g sbs hr hc hR hC,
    iterTiledFull_offsets channels planes tr tc R C g sbs hr hc hR hC⟩
 
+/-- **slices ↔ region reads** (`get_tile_array` ↔ the frame look-up).  For every tile position inside the matrix, the array
+`get_tile_array` cuts there (its zero padding aside) equals the region `[ro, min(ro + tr, R + 1)) × [co, min(co + tc, C + 1))` read
+back through the frame table of ANY complete tiling of the same matrix — whatever ITS tile size and frame order: the slice
+description and the table description of a tile are the same pixels. -/
+theorem tile_is_region_of_matrix {α} (z : α) (M : Img α) (lut : List LutRow) (frames : List (Img α)) (R C th tw tr tc ro co : Int)
+    (ht : 1 ≤ th) (hw : 1 ≤ tw) (hr : 1 ≤ tr) (hc : 1 ≤ tc)
+    (hg : IsGridTable R C th tw lut) (hcut : TableCutFrom M R C th tw lut frames)
+    (h1 : 1 ≤ ro) (h2 : ro ≤ R) (h3 : 1 ≤ co) (h4 : co ≤ C) (full am : Bool) :
+    ∃ fr out, getTileArray z M R C ro co tr tc = .ok fr ∧
+      readRegion z lut frames R C th tw none (some ro) (some (min (ro + tr) (R + 1))) (some co) (some (min (co + tc) (C + 1)))
+        false full am = .ok (min (ro + tr) (R + 1) - ro, min (co + tc) (C + 1) - co, out) ∧
+      ∀ a b, 0 ≤ a → a < min (ro + tr) (R + 1) - ro → 0 ≤ b → b < min (co + tc) (C + 1) - co → out a b = fr a b :=
+  tile_equals_region z M lut frames R C th tw tr tc ro co ht hw hr hc hg hcut h1 h2 h3 h4 full am
+
 /-- **Bridge (z origin of `compute_plane_position_tiled_full`, T7k).**  The model computes the z origin of the tile with the
 REGENERATED expression: `float(slice_index - 1) * spacing_between_slices` when both are given, 0 when neither is, TypeError when
 exactly one is (the `sum(...) not in (0, 2)` test is pinned and translated by its meaning). -/
@@ -427,5 +441,27 @@ example : planePositionZ (some 3) (some (1/2)) = .ok 1 ∧ planePositionZ (some 
   constructor <;> simp [planePositionZ]
 example : (⟨0, 0, 0, 1, 0, 0, 0, 1, 0, 1, 1⟩ : Geo).nondegenerate := by
   unfold Geo.nondegenerate; norm_num
+
+/-- `tile_is_region_of_matrix` instantiated: a 2 × 3 matrix stored as two 1 × 3 tiles, cut again with `get_tile_array` in 2 × 2 tiles at
+(1, 3): the (padded) edge tile's real part is the 2 × 1 region read back from the table -/
+def exM12 : Img Int := fun i j => 10 * i + j
+theorem exGrid12 : IsGridTable 2 3 1 3 [⟨2, 1, 0, 0⟩, ⟨1, 1, 1, 0⟩] := by unfold IsGridTable; decide
+theorem exCut12 : TableCutFrom exM12 2 3 1 3 [⟨2, 1, 0, 0⟩, ⟨1, 1, 1, 0⟩] [fun _ b => exM12 1 b, fun _ b => exM12 0 b] := by
+  intro r hr
+  simp only [List.mem_cons, List.not_mem_nil, or_false] at hr
+  rcases hr with rfl | rfl <;>
+    exact ⟨_, rfl, fun a b _ _ _ _ _ _ => by simp only [exM12]; congr 1 <;> omega⟩
+example : ∃ fr out, getTileArray (0 : Int) exM12 2 3 1 3 2 2 = .ok fr ∧
+    readRegion (0 : Int) [⟨2, 1, 0, 0⟩, ⟨1, 1, 1, 0⟩] [fun _ b => exM12 1 b, fun _ b => exM12 0 b] 2 3 1 3 none (some 1) (some 3) (some 3) (some 4)
+      false false false = .ok (2, 1, out) ∧ out 1 0 = fr 1 0 := by
+  obtain ⟨fr, out, h1, h2, hp⟩ := tile_is_region_of_matrix (0 : Int) exM12 _ _ 2 3 1 3 2 2 1 3 (by decide) (by decide) (by decide) (by decide)
+    exGrid12 exCut12 (by decide) (by decide) (by decide) (by decide) false false
+  exact ⟨fr, out, h1, h2, hp 1 0 (by decide) (by decide) (by decide) (by decide)⟩
+/-- frame table ↔ wrapper on two channels × two focal planes of a 5 × 4 matrix in 2 × 3 tiles: 24 frames each -/
+example : ∃ lut L, tiledFullLut [some 1, some 2] 2 2 3 5 4 = .ok lut ∧
+    slidePerFrame [some 1, some 2] 2 2 3 5 4 ⟨0, 0, 1, 1, 0, 0, 0, 1, 0, 1, 1⟩ (1/2) = .ok L ∧ lut.length = L.length := by
+  obtain ⟨⟨lut, L, h1, h2, h3, _⟩, _⟩ := frame_table_agrees_with_plane_positions [some 1, some 2] 2 2 3 5 4 ⟨0, 0, 1, 1, 0, 0, 0, 1, 0, 1, 1⟩ (1/2)
+    (by decide) (by decide) (by decide) (by decide)
+  exact ⟨lut, L, h1, h2, h3⟩
 
 end HdVerif.Examples.C12
